@@ -193,6 +193,16 @@ def c063(ctx):
                       "%s is not read at the snapshot timestamp (its timestamp comes from %s): entries of batches that are not yet visible -- "
                       "writers still inserting into a memtable that has just become imm -- are returned" % (
                           P.short(callee_skey(t)), sorted({s_["k"] + ":" + str(s_.get("v", s_.get("named", s_.get("callee", "")))) for s_ in other}) or "nowhere"), pt=c)
+        # and no point-read entry of the memtable is used that takes no timestamp at all
+        if key.endswith("::load"):
+            for c in P.call_points(f, r"^lsmtk::kvs::memtable::MemTable::[a-z_0-9]+$"):
+                t = P.term_at(f, c)
+                if (callee_skey(t) or "").endswith(("::approximate_size", "::load")):
+                    continue
+                carries = any(s_["k"] == "field" and re.search(ST, s_["owner"]) and s_["f"] in ts_fields for a in t["args"][1:] for s_ in P.origins(f, a))
+                ctx.check(R, f, "same-timestamp", carries, "%s reads at the snapshot timestamp" % P.short(callee_skey(t)),
+                          "%s is handed no snapshot timestamp: a memtable -- also the immutable one, which writers that already hold it keep "
+                          "inserting into -- contains entries of batches that are not yet visible" % P.short(callee_skey(t)), pt=c)
         # one critical section: exactly one acquisition of the state lock
         locks = P.call_points(f, r"Mutex.*::lock$", arg_pred=K.recv_is_field("state"))
         ctx.check(R, f, "single-section", len(locks) == 1, "the snapshot is taken in a single critical section",
@@ -383,17 +393,45 @@ def c066(ctx):
             v_ok = any(s_["k"] == "field" and s_["f"] == "value" for s_ in P.origins(f, t["args"][2]))
             ctx.check(R, f, "insert-operands", k_ok and v_ok, "inserted as (Key::from(entry), entry.value)", "the skiplist entry is not (Key::from(entry), entry.value)", pt=pt)
     f = ctx.fn(R, MT + "load")
+    pmap = {2: 2, 3: 3, 4: 4}       # parameter of the function that holds the lookup -> parameter of MemTable::load (self, key, timestamp, is_tombstone)
+    f0, keyagg = f, {}              # MemTable::load itself; helper parameter -> the Key aggregate MemTable::load passes for it
+    if f and not P.call_points(f, r"skipfree::SkipListIterator.*::seek$"):
+        # the lookup lives in a helper of the memtable: follow the call that carries key and timestamp (separately, or as one Key)
+        for c in P.call_points(f, r"^lsmtk::kvs::memtable::"):
+            t = P.term_at(f, c)
+            for k_ in ctx.prog.targets(t):
+                g = ctx.prog.fns.get(k_)
+                if g is None or not P.call_points(g, r"skipfree::SkipListIterator.*::seek$"):
+                    continue
+                m = {}
+                for i, a in enumerate(t["args"]):
+                    srcs = P.origins(f, a)
+                    ps = {s_["i"] for s_ in srcs if s_["k"] == "param"}
+                    ag = [s_ for s_ in srcs if s_["k"] == "agg" and s_.get("adt", "").endswith("sst::Key")]
+                    if ag:
+                        keyagg[i + 1] = ag
+                    elif len(ps) == 1:
+                        m[i + 1] = ps.pop()
+                if 4 in set(m.values()) and ({2, 3} <= set(m.values()) or keyagg):
+                    f, pmap = g, m
+                break
     if f:
+        inv = {v: k for k, v in pmap.items()}
         sk = ctx.calls(R, f, r"skipfree::SkipListIterator.*::seek$")
+
+        def agg_ok(fn, a, kparam, tparam):
+            rv = a["st"]["rv"]
+            fk = rv["ops"][rv["fields"].index("key")]
+            ft = rv["ops"][rv["fields"].index("timestamp")]
+            return any(s_["k"] == "param" and s_["i"] == kparam for s_ in P.origins(fn, fk)) and any(s_["k"] == "param" and s_["i"] == tparam for s_ in P.origins(fn, ft))
         for pt in sk:
             t = P.term_at(f, pt)
-            aggs = [s_ for s_ in P.origins(f, t["args"][1]) if s_["k"] == "agg" and s_.get("adt", "").endswith("sst::Key")]
-            ok = False
-            for a in aggs:
-                rv = a["st"]["rv"]
-                fk = rv["ops"][rv["fields"].index("key")]
-                ft = rv["ops"][rv["fields"].index("timestamp")]
-                ok = any(s_["k"] == "param" and s_["i"] == 2 for s_ in P.origins(f, fk)) and any(s_["k"] == "param" and s_["i"] == 3 for s_ in P.origins(f, ft))
+            srcs = P.origins(f, t["args"][1])
+            aggs = [s_ for s_ in srcs if s_["k"] == "agg" and s_.get("adt", "").endswith("sst::Key")]
+            ok = any(agg_ok(f, a, inv.get(2), inv.get(3)) for a in aggs)
+            for s_ in srcs:
+                if s_["k"] == "param" and s_["i"] in keyagg:
+                    ok = ok or any(agg_ok(f0, a, 2, 3) for a in keyagg[s_["i"]])
             ctx.check(R, f, "seek-target", ok, "the iterator is positioned at Key { key, timestamp } of the request", "MemTable::load does not seek to (key, timestamp) of the request", pt=pt)
         # Some(value) is produced only when the iterator is valid and stands on the requested key
         vals = P.call_points(f, r"Option.*Clone>::clone$|core::clone::Clone::clone$")
@@ -404,7 +442,7 @@ def c066(ctx):
             eq = [1 for bb, lab, srcs in K.guards(f, p_) if lab == "sw:1" and any(s_["k"] == "call" and re.search(r"::eq$", s_["callee"]) for s_ in srcs)]
             ctx.check(R, f, "hit-test", valid is not None and bool(eq), "a value is handed out only when the iterator is valid and its key equals the requested key",
                       "MemTable::load hands out the value of whatever entry the seek landed on", pt=p_)
-        tw = [w for b in f.blocks for w in [(b.idx, i) for i, st in enumerate(b.st) if st["s"] == "=" and st["lhs"]["l"] == 4 and "*" in st["lhs"]["p"]]]
+        tw = [w for b in f.blocks for w in [(b.idx, i) for i, st in enumerate(b.st) if st["s"] == "=" and st["lhs"]["l"] == inv.get(4) and "*" in st["lhs"]["p"]]]
         ctx.check(R, f, "tombstone-flag", bool(tw), "the tombstone flag is reported through the out-parameter", "MemTable::load no longer reports tombstones")
     f = ctx.fn(R, "<lsmtk::kvs::memtable::SkipListIteratorWrapper as sst::Cursor>::seek")
     if f:
